@@ -62,6 +62,9 @@ func genArgMax(r *gen.R, validOnly bool) (mon.OpReq, Expect, bool) {
 	} else {
 		x = r.Tensor(dt, shape, gen.FillSmall, 50)
 	}
+	if presetOperand != nil {
+		x, shape, dt = presetOperand, presetOperand.Shape, presetOperand.DT
+	}
 	withNaN := false
 	if dt.IsFloat() && !validOnly && r.Chance(0.1) {
 		x.Bits[r.Intn(len(x.Bits))] = ref.EncF(dt, math.NaN())
@@ -118,6 +121,9 @@ func genReduce(r *gen.R, op string, validOnly bool) (mon.OpReq, Expect, bool) {
 				}
 			}
 		}
+	}
+	if presetOperand != nil {
+		x, shape = presetOperand, presetOperand.Shape
 	}
 	rank := len(shape)
 	req := mon.OpReq{Op: op, Inputs: []*ref.T{x}}
@@ -195,6 +201,9 @@ func genSoftmax(r *gen.R, op string, validOnly bool) (mon.OpReq, Expect, bool) {
 		}
 		x.Bits[i] = ref.EncF(dt, v)
 	}
+	if presetOperand != nil {
+		x, shape = presetOperand, presetOperand.Shape
+	}
 	rank := len(shape)
 	axis := r.Range(-rank, rank-1)
 	req := mon.OpReq{Op: op, Inputs: []*ref.T{x}}
@@ -217,6 +226,10 @@ func genSoftmax(r *gen.R, op string, validOnly bool) (mon.OpReq, Expect, bool) {
 }
 
 func c09Run(c *Ctx) {
+	if c.Idx%16 == 9 {
+		c09Shared(c)
+		return
+	}
 	var req mon.OpReq
 	var exp Expect
 	switch c.R.Intn(10) {
